@@ -23,7 +23,8 @@ def expect (label : String) (out : String) : Option String :=
   let code (r : Nat) (c : Nat) := s!"V0:{r}:{c}"
   if label == "consistent" then (if v == "V0:0:0" then none else some "consistent-signature-not-OK")
   else if v == "V0:0:0" then
-    (if label.startsWith "INT-" || label.startsWith "GEN-" then some s!"violated-{label}-reported-OK" else none)
+    (if label.startsWith "INT-" || label.startsWith "GEN-" then some s!"violated-{label}-reported-OK"
+     else if label == "lc-out-of-range" then some "a-level-correction-above-255-reported-OK" else none)
   else if !parsed then none
   else
     let want : Option (List String) :=
